@@ -791,7 +791,10 @@ def op_reconf(ctx: Ctx, i, op):
     try:
         with Quiet():
             for gname, secs in GROUPS.items():
-                if any(cur[sec] != target[sec] for sec in secs) or (gname == "pipe_borehole" and st.get("nominal_override")):
+                if any(cur[sec] != target[sec] for sec in secs) or (gname == "pipe_borehole" and st.get("nominal_override")) or (
+                        gname == "simulation" and st.get("late_setter")):
+                    # (after a late setter the manager holds other simulation parameters than st["cfg"] says: the reconfiguration
+                    # must set them again, otherwise the new design would silently adopt the late ones)
                     for sec in secs:
                         if sec != "design":  # the design section is applied by set_design below
                             gen._call_setter(mgr, sec, target, gen._LOADS_CACHE)
